@@ -45,7 +45,7 @@ func VerifC06CatchUp() {
 	w := &WalletManager{config: &config.Config{Wallet: config.NewDefWalletConfig()}, db: st.DB, chainParams: config.ChainParams,
 		ksmgr: st.Ks, bucketMeta: st.Meta, utxoStore: st.Utxo, txStore: st.Tx, syncStore: st.Sync, chainFetcher: node}
 	c01HdrReg, c01HdrIDs, c01IDSeeds = nil, nil, nil
-	for i := 0; i < 5; i++ {
+	for i := 0; i < 7; i++ {
 		var id wire.Hash
 		copy(id[:], rt.NondetBytes(32))
 		for _, o := range c01IDSeeds {
@@ -56,14 +56,31 @@ func VerifC06CatchUp() {
 	H := rt.NondetU64()
 	rt.Assume(H >= 2 && H < 1<<56)
 	b := rt.NondetLen(0, 3)
+	// the store may have been left on a branch the node has since abandoned: a = 0..2 stale blocks above A
+	// (the catch-up then has to walk back before it can connect; only when the node's branch is longer)
+	a := rt.NondetLen(0, 2)
+	rt.Assume(a == 0 || b > a)
 	P := c01Block(H-1, wire.Hash{}, 10)
 	A := c01Block(H, P.BlockHash(), 11)
 	best := []*wire.MsgBlock{P, A}
 	for i := 1; i <= b; i++ {
 		best = append(best, c01Block(H+uint64(i), best[len(best)-1].BlockHash(), 2000+int64(i)))
 	}
-	st.VerifSetSyncedChain([]txmgr.BlockMeta{c01Meta(P), c01Meta(A)})
-	node.base, node.best, node.blocks = H-1, best, best
+	stale := []*wire.MsgBlock{P, A}
+	for i := 1; i <= a; i++ {
+		stale = append(stale, c01Block(H+uint64(i), stale[len(stale)-1].BlockHash(), 1000+int64(i)))
+	}
+	for _, x := range stale[2:] {
+		for _, y := range best[2:] {
+			rt.Assume(x.BlockHash() != y.BlockHash())
+		}
+	}
+	var left []txmgr.BlockMeta
+	for _, blk := range stale {
+		left = append(left, c01Meta(blk))
+	}
+	st.VerifSetSyncedChain(left)
+	node.base, node.best, node.blocks = H-1, best, append(append([]*wire.MsgBlock{}, best...), stale[2:]...)
 	c06IndexHeight = H + uint64(b)
 	newHandler := func() *NtfnsHandler {
 		h, err := NewNtfnsHandler(w)
@@ -107,10 +124,24 @@ func VerifC06CatchUp() {
 	} else {
 		rt.Assert(faulted, "start-fails-only-when-something-failed")
 		rt.Assert(rt.GoCalls() == 0 || !rt.Symbolic(), "nothing-launched-after-a-failed-start")
-		// stopped at a block boundary: some prefix of the node's chain is recorded, whole
+		// stopped at a block boundary: some prefix of the node's chain is recorded, whole - or, when the failure
+		// came while the stale branch was being replaced, the store is exactly as it was left
 		okPrefix := false
 		for k := 1; k < len(best); k++ {
 			if recorded(k) {
+				okPrefix = true
+			}
+		}
+		if a > 0 && st.VerifSyncRecords() == len(stale)+1 && bytes.Equal(st.VerifSyncedToHeight(), key(stale[len(stale)-1].Header.Height)) {
+			same := true
+			for _, blk := range stale {
+				r := st.VerifSyncedRecord(blk.Header.Height)
+				bh := blk.BlockHash()
+				if len(r) != 36 || !bytes.Equal(r[:32], bh[:]) {
+					same = false
+				}
+			}
+			if same {
 				okPrefix = true
 			}
 		}
